@@ -206,7 +206,7 @@ def run(ck):
     combos = [(e, i, p) for e in histories.ENCR for i in histories.INTEG for p in histories.PRF]
     base = ck.seed * 1000003 + 23
     n = 0
-    reps = 1 if not ck.thorough() else 6
+    reps = 1 if not ck.thorough() else 20
     for rep in range(reps):
         for ci, (e, i, p) in enumerate(combos):
             for di, d in enumerate(dhs):
